@@ -27,6 +27,20 @@ def handle (j : Json) : R Json := do
     let p ← asList asRat (← fld j "pixel")
     let c ← asList asRat (← fld j "charge")
     .ok (obj [("model", ofList ofRat (collect p c))])
+  | "collect_seq" =>
+    -- every step: reset flag + list of contributions (full frames); answers the pixel frame after every step
+    let p0 ← asList asRat (← fld j "pixel0")
+    let steps ← asList (fun e => do
+      let r ← asBool (← fld e "reset")
+      let cs ← asList (asList asRat) (← fld e "contributions")
+      .ok (r, cs)) (← fld j "steps")
+    let zero : List Rat := p0.map (fun _ => 0)
+    let rec go : List Rat → List (Bool × List (List Rat)) → List (List Rat)
+      | _, [] => []
+      | p, (r, cs) :: rest =>
+        let p' := collect (if r then zero else p) (generated zero cs)
+        p' :: go p' rest
+    .ok (obj [("model", ofList (ofList ofRat) (go p0 steps))])
   | "qe" =>
     let q ← asRat (← fld j "qe")
     let ph ← asList asRat (← fld j "photons")
